@@ -18,8 +18,30 @@ def is_sig(c: str) -> bool:
     return c.startswith("Sig")
 
 
+def search(ctx: Ctx) -> Report:
+    """bound-corner action sequences found by an evolutionary search that pushes every observation component to its extremes"""
+    from .. import tracecheck
+    from ..core import Violation
+    rep = Report()
+    envs = [(n, mk) for (n, kw, mk) in be.classic_envs(ctx) if not kw and n != "CartPole"]
+    cases = [dict(env=n, horizon=ctx.pick(256, 512), pop=ctx.pick(48, 128), gens=ctx.pick(6, 16), seed=ctx.rng.randrange(2 ** 31)) for n, _ in envs]
+    traces = [be.extremal_search(c["env"], mk(), c["horizon"], c["pop"], c["gens"], c["seed"]) for c, (_, mk) in zip(cases, envs)]
+    v = tracecheck.validate(ctx, be.SPEC, traces, "c02_search")
+    rep.states += v.distinct
+    rep.transitions += v.generated
+    rep.traces += len(traces)
+    rep.evaluations += sum(t["meta"]["observations_checked"] for t in traces)
+    rep.parts["C2S_extremal_search"] = {"searches": [t["meta"] for t in traces], "accepted": len(v.accepted), "rejected": len(v.rejected)}
+    for i, (l, clauses) in sorted(v.rejected.items()):
+        rep.violations.append(Violation(f"C02:{cases[i]['env']}:" + "+".join(clauses) + ":extremal_search",
+                                        f"{cases[i]['env']}: an in-space bang-bang action sequence found by search leaves the declared spaces: "
+                                        f"{clauses}; extremes reached {traces[i]['meta']['extremes_reached']}", "search", cases[i]))
+    return rep
+
+
 def run(ctx: Ctx) -> Report:
     rep = be.run_traces(ctx, "C02", is_sig, families=("classic", "mujoco"))
+    rep.merge(search(ctx))
     if ctx.thorough:
         try:
             from . import g1
@@ -33,4 +55,15 @@ def run(ctx: Ctx) -> Report:
 
 
 def replay(ctx: Ctx, driver: str, case: dict) -> Report:
+    if driver == "search":
+        from .. import tracecheck
+        from ..core import Violation
+        rep = Report()
+        mk = next(m for (n, kw, m) in be.classic_envs(ctx) if n == case["env"] and not kw)
+        tr = be.extremal_search(case["env"], mk(), case["horizon"], case["pop"], case["gens"], case["seed"])
+        v = tracecheck.validate(ctx, be.SPEC, [tr], "replay")
+        for i, (l, clauses) in v.rejected.items():
+            rep.violations.append(Violation(f"C02:{case['env']}:" + "+".join(clauses) + ":extremal_search", str(tr["meta"]), "search", case))
+        rep.traces = 1
+        return rep
     return be.replay(ctx, driver, case, pid="C02", only=is_sig)
